@@ -71,4 +71,8 @@ ResultsOnlyFromOwnInputs == pc = "done" => result = Own
 NoIntermediateLeft == pc = "done" => \A n \in DOMAIN fs : (n[1] # "result" => fs[n][1] # run)
 \* behaviour generation: the run history that led to the completed run
 EmitCase == pc = "done" => PrintT(<<"CASE", history, [k |-> cfg.k, pfx |-> cfg.pfx]>>)
+\* ---- liveness (checked by Workdir_live.cfg): under weak fairness of the next-state action every behaviour comes to rest
+\* in a state without successor -- the modelled procedure terminates for every input, schedule and fault inside the bounds
+FairSpec == Spec /\ WF_vars(Next)
+Halts == <>[](~ENABLED Next)
 =============================================================================
